@@ -68,6 +68,9 @@ impl Hook {
         };
 
         for function in functions {
+            // Only a hook that stops execution itself ends the chain; if execution has already
+            // finished (e.g. this was the last instruction), the remaining hooks still run
+            let was_finished = ax.state.finished;
             let res = match function(ax, mnemonic) {
                 Ok(res) => res,
                 Err(e) => {
@@ -76,7 +79,7 @@ impl Hook {
                     return Err(e.into());
                 }
             };
-            if ax.state.finished || res == HookResult::Handled {
+            if (ax.state.finished && !was_finished) || res == HookResult::Handled {
                 ax.hooks.running = false;
                 return Ok(());
             }
